@@ -145,7 +145,35 @@ def run(ctx):
     R.rule("C30-R2", "ring state written only while the ring mutex is held", floor=6)
     R.rule("C30-R3", "reference drop, needsFree() test and delete in one critical section", floor=6)
     R.rule("C30-R4", "allocation counters updated under a lock or atomically", floor=4)
+    R.rule("C30-R6", "every translation unit that instantiates ring operations compiles the locking declaration of ring_t (the configuration macro is defined before gc.hpp is read)", floor=3)
     R.rule("C30-R5", "settings(): no reference to shared state escapes the critical section", floor=1)
+
+    # ---- R6: gc.hpp selects the locking variant with `#if OCCA_THREAD_SHARABLE_ENABLED` but does not include the header that defines it ------
+    import json as _json
+    from vlib import work as _work
+    import os as _os
+    us = _work.all_units() if ctx.tier == "thorough" else [_os.path.join(_work.REPO, u) for u in UNITS]
+    res, _ = _work.extract(us, "sharable")
+    n_users = 0
+    for unit in sorted(res):
+        with open(res[unit]) as fh:
+            d = _json.load(fh)
+        ring = [r for r in d["records"] if r.get("q") == "occa::gc::ring_t"]
+        if not ring:
+            continue
+        locking = any(m["n"] == "removeRef" and "bool" in m.get("sig", "") for m in ring[0]["methods"])
+        fl = d["functions"].values() if isinstance(d["functions"], dict) else d["functions"]
+        inst = sorted({fn.get("q", "") for fn in fl if fn.get("q", "").startswith("occa::gc::ring_t") and fn.get("tmpl") == "inst"})
+        rel = _os.path.relpath(unit, _work.REPO)
+        if not inst:
+            continue            # sees the declaration only (gc.cpp): no ring operation is compiled into this unit
+        n_users += 1
+        R.ob("C30-R6", locking, rel, "unit compiles the locking ring_t (%d ring member instantiations)" % len(inst), rel,
+             "removeRef(entry, threadLock) / mutex present" if locking else
+             "this unit reads gc.hpp before OCCA_THREAD_SHARABLE_ENABLED is defined: in a sharable build its ring operations (%s ...) are compiled WITHOUT the mutex while every other unit locks - concurrent slices / copies race on the ring" % ", ".join(inst[:2]),
+             nontrivial=False)
+    if n_users < 3:
+        raise AnalysisBroken("only %d units with ring instantiations found in the sharable variant" % n_users)
 
     ring_fns = [f for f in prog.funcs.values() if f.d.get("tmpl") == "pattern" and (f.q.startswith("occa::gc::ring_t::") or f.q.startswith("occa::gc::multiRing_t::"))]
     if len(ring_fns) < 10:
